@@ -1601,6 +1601,9 @@ theorem parseRaw_delim (body rest : List Nat) (h : body.length < 2 ^ 64) :
 /-- a type whose values are exactly one wire entry: what a pointer may point to and a slice may hold -/
 def Ty.single : Ty → Bool
   | .rep _ | .opt _ => false
+  /- a byte array is a direct field of a struct: the library has no slices of arrays (the encoder
+  panics on two-dimensional arrays other than `[][]byte`), pointers to arrays are not generated -/
+  | .arr _ => false
   | _ => true
 
 mutual
@@ -1615,6 +1618,7 @@ def wf : Ty → Val → Bool
   | .bool, .bool _ => true
   | .f64, .f64 x => decide (x < 2 ^ 64)
   | .bytes, .bytes b => decide (b.length < 2 ^ 64)
+  | .arr n, .bytes b => decide (b.length = n ∧ n < 2 ^ 64)
   | .msg ts, .msg vs => wfs ts vs && decide ((encMsg 1 ts vs).length < 2 ^ 64) && decide (ts.length < 2 ^ 60)
   | .rep t, .rep l => t.single && wfAll t l && (!t.packed || decide ((encPackedAll t l).length < 2 ^ 64))
   | .opt t, .opt none => t.single
@@ -1886,7 +1890,7 @@ theorem field_rep_unpacked (t : Ty) (hnp : t.packed = false) (l : List Val) (he 
 
 /-- the scalar types and byte strings as one wire entry -/
 theorem entry_scalar (t : Ty) (v : Val) (hw : wf t v = true)
-    (ht : t.packed = true ∨ t = .bytes) : EntryRT t v := by
+    (ht : t.packed = true ∨ t = .bytes ∨ ∃ n, t = .arr n) : EntryRT t v := by
   intro key hk8 hk64
   match t, v, hw, ht with
   | .i32, .int i, hw, _ =>
@@ -1938,6 +1942,17 @@ theorem entry_scalar (t : Ty) (v : Val) (hw : wf t v = true)
       refine ⟨rfl, fun fuel old x' _ => ?_⟩
       rw [putValue]
       simp [putScalar]
+  | .arr n, .bytes b, hw, _ =>
+    simp [wf] at hw
+    refine ⟨2, b.length, b, uvarint b.length ++ b, by omega, by simp [encField, lenDelim], fun R => ?_, by simp, ?_, ?_⟩
+    · exact parseRaw_delim b R (by omega)
+    · intro fuel old _
+      rw [putValue]
+      simp [putScalar, hw.1]
+    · intro _
+      refine ⟨rfl, fun fuel old x' _ => ?_⟩
+      rw [putValue]
+      simp [putScalar, hw.1]
 
 /-- field by field: the values of a message schema, pairwise -/
 def AllFieldRT : List Ty → List Val → Prop
@@ -2040,7 +2055,7 @@ theorem wfAll_mem (t : Ty) (l : List Val) (h : wfAll t l = true) : ∀ v ∈ l, 
     · exact h.1
     · exact ih h.2 v hv
 
-theorem good_scalar (v : Val) (hs : ∀ t, wf t v = true → t.packed = true ∨ t = .bytes) : Good v :=
+theorem good_scalar (v : Val) (hs : ∀ t, wf t v = true → t.packed = true ∨ t = .bytes ∨ ∃ n, t = .arr n) : Good v :=
   ⟨fun t hw _ => entry_scalar t v hw (hs t hw),
    fun t hw => field_of_entry t v (entry_scalar t v hw (hs t hw))⟩
 
@@ -2095,8 +2110,8 @@ end
 
 
 /-- **layer 2: the wire codec round-trips.** For every message schema of the language (integers of
-both widths and signs, booleans, float64, byte strings, nested messages to any depth, packed and
-unpacked repeated fields, optional pointers) and every value of it inside the lossless range, what
+both widths and signs, booleans, float64, byte strings, byte arrays of fixed length, nested messages
+to any depth, packed and unpacked repeated fields, optional pointers) and every value of it inside the lossless range, what
 `protobuf.Encode` writes, `protobuf.Decode` reads back as the same value. -/
 theorem c03_wire_roundtrip (ts : List Ty) (vs : List Val) (hw : wf (.msg ts) (.msg vs) = true) :
     decode ts (encMsg 1 ts vs) = some vs := by
@@ -2151,6 +2166,19 @@ example : Wire.wf (.msg [.i32, .bytes, .rep .i64, .opt (.msg [.u64, .bool]), .re
 /-- the bound on signed integers is the library's, and it is tight: `2^62` comes back as `-2^62`
 (the zig-zag decoder shifts arithmetically) -/
 example : (Wire.decode [.i64] (Wire.encMsg 1 [.i64] [.int (2 ^ 62)])).map (Wire.Val.sames · [.int (-2 ^ 62)]) = some true := by
+  decide
+
+/-- round 5 — byte arrays of fixed length (`[16]byte`: the tree, roster, token and server ids of onet's
+own messages) are part of the schema language: a struct with ids, also inside a nested and a repeated
+message, is inside the theorem … -/
+example : Wire.wf (.msg [.arr 4, .i64, .msg [.arr 2, .bytes], .rep (.msg [.arr 2, .bytes])])
+    (.msg [.bytes [1, 2, 3, 4], .int 5, .msg [.bytes [0, 0], .bytes [7]],
+      .rep [.msg [.bytes [9, 9], .bytes []], .msg [.bytes [0, 1], .bytes [1]]]]) = true := by
+  decide
+
+/-- … and the decoder insists on the length: a byte string of another length is refused for an array -/
+example : Wire.decode [.arr 4] (Wire.encMsg 1 [.bytes] [.bytes [1, 2, 3]]) = none ∧
+    (Wire.decode [.arr 3] (Wire.encMsg 1 [.bytes] [.bytes [1, 2, 3]])).map (Wire.Val.sames · [.bytes [1, 2, 3]]) = some true := by
   decide
 
 /-! ### round 5: the receive loop refines a parser of the byte stream; causality -/
@@ -2431,11 +2459,12 @@ theorem c03_shape_tcp_TCPConn_sendRaw :
 
 theorem c03_shape_tcp_handleError :
     Shapes.network_tcp_handleError =
-   ["if:(strings.Contains(err.Error(),\"\")||strings.Contains(err.Error(),\"\"))",
-     "return:ErrClosed", "else", "if:strings.Contains(err.Error(),\"\")", "return:ErrCanceled",
-     "else", "if:((err==io.EOF)||strings.Contains(err.Error(),\"\"))", "return:ErrEOF",
-     "assign:netErr,ok:=err.(net.Error)", "if:!ok", "return:ErrUnknown", "if:netErr.Timeout()",
-     "return:ErrTimeout", "if:strings.Contains(err.Error(),\"\")", "else", "return:ErrUnknown"] := rfl
+   ["if:(strings.Contains(err.Error(),\"use of closed\")||strings.Contains(err.Error(),\"broken pipe\"))",
+     "return:ErrClosed", "else", "if:strings.Contains(err.Error(),\"canceled\")",
+     "return:ErrCanceled", "else", "if:((err==io.EOF)||strings.Contains(err.Error(),\"EOF\"))",
+     "return:ErrEOF", "assign:netErr,ok:=err.(net.Error)", "if:!ok", "return:ErrUnknown",
+     "if:netErr.Timeout()", "return:ErrTimeout",
+     "if:strings.Contains(err.Error(),\"bad certificate\")", "else", "return:ErrUnknown"] := rfl
 
 theorem c03_shape_encoding_Marshal :
     Shapes.network_encoding_Marshal =
@@ -2504,8 +2533,8 @@ theorem c03_shape_encoding_init :
      "NewSuiteGT().Scalar", "protobuf.RegisterInterface", "suites.MustFind", "ed25519.Point",
      "protobuf.RegisterInterface", "ed25519.Scalar", "protobuf.RegisterInterface"] := rfl
 
-theorem c03_shape___router_Router_handleConn :
-    Shapes.network___router_Router_handleConn =
+theorem c03_shape_router_Router_handleConn_b3 :
+    Shapes.network_router_Router_handleConn_b3 =
    ["defer{", "c.Close", "assign:err:=c.Close()", "if:(err!=nil)", "c.Rx", "c.Tx",
      "assign:rx,tx:=c.Rx(),c.Tx()", "traffic.updateRx", "traffic.updateTx", "wg.Done",
      "r.removeConnection", "verifC10Point", "}", "verifC10Point", "c.Remote",
